@@ -48,6 +48,9 @@ type Monitor struct {
 	ProposerMismatch []Violation
 	// VoteHook, if set, sees every vote a correct node emits (after the built-in checks).
 	VoteHook func(n *Node, v *types.Vote)
+	// HeldCheck enables the held-block monitor (held.go).
+	HeldCheck     bool
+	proposalBytes map[string][]byte
 }
 
 func NewMonitor(s *Sim) *Monitor {
